@@ -8,10 +8,12 @@
 # usage: tools/sensitivity.sh [--tests] [name-substring ...]     --tests also runs the repo's 229 tests with the patch
 set -u
 HERE="$(cd "$(dirname "${BASH_SOURCE[0]}")/.." && pwd)"
+# REPO: the tree the patches are applied to (the harness builds against the path in sim/Cargo.toml, /repo)
+REPO="${REPO:-/repo}"
 TESTS=0; [ "${1:-}" = "--tests" ] && { TESTS=1; shift; }
 FILTER=("$@")
-if [ -n "$(git -C /repo status --porcelain --untracked-files=no)" ]; then echo "refusing: /repo has local modifications"; exit 2; fi
-trap 'git -C /repo checkout -q -- . 2>/dev/null' EXIT
+if [ -n "$(git -C "$REPO" status --porcelain --untracked-files=no)" ]; then echo "refusing: /repo has local modifications"; exit 2; fi
+trap 'git -C "$REPO" checkout -q -- . 2>/dev/null' EXIT
 SCR="$HERE/sim/target/sens.$$"; mkdir -p "$SCR"; cp "$HERE/known_findings.txt" "$SCR/"
 RES="$HERE/tools/mutants/RESULTS.tsv"; : > "$RES.new"
 ALL="C06 C07 C10 C11 C12 C15 C18 C19"
@@ -19,10 +21,10 @@ run_one() { # name expect patchfile reverse desc
   local name="$1" expect="$2" patch="$3" rev="$4" desc="$5"
   if [ ${#FILTER[@]} -gt 0 ]; then local hit=0; for f in "${FILTER[@]}"; do [[ "$name" == *"$f"* ]] && hit=1; done; [ $hit -eq 0 ] && return; fi
   local args=(); [ "$rev" = 1 ] && args=(-R)
-  if ! git -C /repo apply "${args[@]}" "$patch" 2>"$SCR/apply.err"; then echo -e "$name\t$expect\tPATCH-DOES-NOT-APPLY\t$desc" | tee -a "$RES.new"; return; fi
+  if ! git -C "$REPO" apply "${args[@]}" "$patch" 2>"$SCR/apply.err"; then echo -e "$name\t$expect\tPATCH-DOES-NOT-APPLY\t$desc" | tee -a "$RES.new"; return; fi
   local tests="-"
   if [ $TESTS -eq 1 ]; then
-    if (cd /repo && cargo test --workspace --no-fail-fast --offline 2>&1 | grep -q "^test result: ok. 229 passed"); then tests="229ok"; else tests="TESTS-FAIL"; fi
+    if (cd "$REPO" && cargo test --workspace --no-fail-fast --offline 2>&1 | grep -q "^test result: ok. 229 passed"); then tests="229ok"; else tests="TESTS-FAIL"; fi
   fi
   local verdict="" t0=$SECONDS
   if [ "$expect" = "NONE" ]; then
@@ -34,7 +36,7 @@ run_one() { # name expect patchfile reverse desc
       if [ $rc -eq 1 ]; then caught="$caught $p:$(grep -m1 -o 'class=[a-z0-9_.]*' "$SCR/out.$p")"; elif [ $rc -eq 2 ]; then caught="$caught $p:HARNESS-ERROR"; fi; done
     if [ -n "$caught" ]; then verdict="caught$caught"; else verdict="MISSED"; fi
   fi
-  git -C /repo checkout -q -- .
+  git -C "$REPO" checkout -q -- .
   echo -e "$name\t$expect\t$verdict\t$tests\t$((SECONDS-t0))s\t$desc" | tee -a "$RES.new"
 }
 while IFS=$'\t' read -r name expect desc; do
